@@ -11,13 +11,14 @@
 XPath 3.1 implementation - part 2 (operators and constructors)
 """
 from collections.abc import Iterator, Iterable
+from copy import copy
 from typing import cast, Union
 
 import elementpath.aliases as ta
 
 from elementpath.sequence_types import is_sequence_type, match_sequence_type
 from elementpath.xpath_tokens import XPathToken, ProxyToken, XPathFunction, \
-    XPathMap, XPathArray
+    XPathMap, XPathArray, ValueToken
 from elementpath.sequences import xlist
 
 from elementpath.xpath_tokens.functions import COMMENTS_LOOKAHEAD
@@ -277,5 +278,17 @@ def evaluate__arrow_operator(self: XPathToken, context: ta.ContextType = None) \
     if self[2]:
         tokens.extend(self[2][0].get_argument_tokens())
     func = self[1].get_function(context, arity=len(tokens))
+
+    if any(tk.symbol == '?' and not tk for tk in tokens):
+        # A partial application: the fixed arguments are evaluated now
+        func.check_arguments_number(len(tokens))
+        func = copy(func)
+        func._items = [
+            tk if tk.symbol == '?' and not tk else
+            ValueToken(self.parser, value=tk.evaluate(context)) for tk in tokens
+        ]
+        func.to_partial_function()
+        return func
+
     arguments = [tk.evaluate(context) for tk in tokens]
     return func(*arguments, context=context)
